@@ -38,7 +38,7 @@ type c06PickCase struct {
 	Bind     string `json:"bind_policy"`
 	Excl     string `json:"exclusive_policy"`
 	Strategy string `json:"numa_strategy"`
-	Pref     bool   `json:"preferred_is_first_occupant_pod"`
+	Pref     string `json:"preferred_cpus"`
 	Seam     string `json:"seam"`
 	Holders  []int  `json:"holders_per_cpu"`
 	Reserved []int  `json:"reserved_cpus"`
@@ -67,6 +67,27 @@ type c06PickWorld struct {
 	holders  []int
 	reserved uint32
 	firstOcc uint32 // CPUs of the first occupant pod (used as "preferred" = restored from the pod's reservation)
+	evenFree uint32 // the unheld, unreserved CPUs at even positions (preferred mode 2 lets a reserve pod hold them)
+}
+
+var c06PrefModes = []string{"none", "the first occupant pod's CPUs (a reservation that nobody consumed yet)",
+	"a reserve pod's CPUs: even-position free CPUs (held by it alone) + the first occupant group's CPUs (also held by their owners, up to the limit)"}
+
+// addReservation commits a reserve pod on top of the situation: it holds some otherwise free CPUs alone and shares
+// the first occupant group's CPUs with the pods that already consumed them (RefCount = owners + 1, as the plugin
+// records a reservation and its owner pods).
+func (w *c06PickWorld) addReservation(n int) uint32 {
+	mask := w.evenFree | w.firstOcc
+	if mask == 0 {
+		return 0
+	}
+	w.rm.Update(c06Node, &PodAllocation{UID: "resv", Name: "resv", Namespace: "default", CPUSet: c06MaskToSet(mask)})
+	for id := 0; id < n; id++ {
+		if mask&(1<<uint(id)) != 0 {
+			w.holders[id]++
+		}
+	}
+	return mask
 }
 
 func c06BuildPickWorld(l *c06Layout, topo *CPUTopology, freeMask uint32, occMode int, maxRef, share int) *c06PickWorld {
@@ -94,6 +115,15 @@ func c06BuildPickWorld(l *c06Layout, topo *CPUTopology, freeMask uint32, occMode
 			}
 		}
 		k++
+	}
+	k = 0
+	for id := 0; id < l.N; id++ {
+		if freeMask&(1<<uint(id)) != 0 {
+			if k%2 == 0 {
+				w.evenFree |= 1 << uint(id)
+			}
+			k++
+		}
 	}
 	var shareMask uint32
 	if share > 0 {
@@ -163,7 +193,26 @@ func TestVerifC06Pick(t *testing.T) {
 			}
 		}
 	}
+	// three and four sockets (the design's alphabet stopped at two): small ones with every free subset, the 12/16-CPU
+	// ones with every union of whole cores as the free set (quick) resp. every subset for 12 CPUs (thorough). They
+	// are cheap and go first, so that a time cap can only drop the largest two-socket topologies.
+	coreGranular := map[*c06Layout]bool{}
+	var multi []*c06Layout
+	for _, x := range []struct {
+		s, c int
+		ilv  bool
+	}{{3, 1, false}, {4, 1, false}, {3, 2, false}, {3, 2, true}, {4, 2, false}} {
+		l := c06NewLayout(x.s, 1, x.c, 2, x.ilv)
+		if l.N > maxCPUs {
+			coreGranular[l] = true
+		}
+		multi = append(multi, l)
+	}
+	layouts = append(multi, layouts...)
 	selFor := func(l *c06Layout) (occ, ref []int) {
+		if coreGranular[l] {
+			return []int{0, 4}, []int{0}
+		}
 		if l.N <= fullMax {
 			return []int{0, 1, 2, 3, 4}, []int{0, 1, 2, 3}
 		}
@@ -179,7 +228,7 @@ func TestVerifC06Pick(t *testing.T) {
 	res := mc.NewResult("C06", "pick", "enumeration")
 	res.Rule = "every topology sockets{1,2} x NUMA/socket{1,2} x cores/NUMA{1,2,3} x threads{1,2} with at most the stated number of CPUs, sequential and interleaved-HT id numbering; EVERY subset of the CPUs as the free set; the non-free CPUs " +
 		"held by pods of each exclusive policy / reserved / mixed; sharing limit 1, or 2 with some free CPUs already held once; n in 0..|free|+1; bind policy {default, FullPCPUs, SpreadByPCPUs} x {preferred, required}; " +
-		"exclusive policy {none, PCPULevel, NUMANodeLevel}; NUMA strategy {Most,Least}Allocated; preferred CPUs {none, the first occupant pod's}; each through takeCPUs/takePreferredCPUs(getAvailableCPUs(..)) and through resourceManager.Allocate. " +
+		"exclusive policy {none, PCPULevel, NUMANodeLevel}; NUMA strategy {Most,Least}Allocated; preferred CPUs {none, the first occupant pod's, a reserve pod's that is partly consumed by owner pods (RefCount = owners + 1)}; additionally sockets {3,4} x 1 NUMA x cores{1,2} x 2 threads (every subset up to the CPU bound, else every union of whole cores); each through takeCPUs/takePreferredCPUs(getAvailableCPUs(..)) and through resourceManager.Allocate. " +
 		"non-trivial = a successful pick with n>=1; distinct = distinct (topology, free-for-this-pod set, n, chosen set)"
 	res.Assumptions = []string{"the ledger situations are those reachable by committing whole pods through resourceManager.Update; occupant patterns for non-free CPUs come from a fixed list of five (all pods of one exclusive policy, all reserved, mixed), not every per-CPU assignment"}
 	ds := mc.NewDistinctSet()
@@ -189,12 +238,28 @@ func TestVerifC06Pick(t *testing.T) {
 		l := l
 		li := li
 		topo := l.topology()
+		socketClass := "" // witness class: the design's alphabet (<= 2 sockets) vs. machines with three or more sockets
+		if l.Sockets >= 3 {
+			socketClass = "|sockets>=3"
+		}
 		occSel, refSel := selFor(l)
-		rx := mc.Radix{Dims: []int{1 << uint(l.N), len(occSel), len(refSel), l.N + 2}}
+		freeBits := l.N
+		if coreGranular[l] {
+			freeBits = l.NumCores
+		}
+		rx := mc.Radix{Dims: []int{1 << uint(freeBits), len(occSel), len(refSel), l.N + 2}}
 		total += rx.Size()
 		done, ok := env.ParallelRangeL(res, rx.Size(), func(loc *mc.Local, i int64) {
 			d := rx.Decode(i, make([]int, 0, 4))
 			freeMask, occMode, refMode, n := uint32(d[0]), occSel[d[1]], c06RefModes[refSel[d[2]]], d[3]
+			if coreGranular[l] {
+				freeMask = 0
+				for core, cm := range l.CoreMask {
+					if d[0]&(1<<uint(core)) != 0 {
+						freeMask |= cm
+					}
+				}
+			}
 			if n > bits.OnesCount32(freeMask)+1 {
 				return
 			}
@@ -208,13 +273,25 @@ func TestVerifC06Pick(t *testing.T) {
 			if w.reserved != 0 {
 				loc.Count("worlds_with_reserved_cpus", 1)
 			}
-			for pref := 0; pref < 2; pref++ {
+			for pref := 0; pref < 3; pref++ {
 				if pref == 1 && w.firstOcc == 0 {
 					continue
 				}
+				if rp != nil && rp.Pref != c06PrefModes[pref] {
+					continue
+				}
 				var prefMask uint32
-				if pref == 1 {
+				switch pref {
+				case 1:
 					prefMask = w.firstOcc
+				case 2:
+					// from here on the situation contains the reserve pod (last preferred mode, the world is not reused)
+					if prefMask = w.addReservation(l.N); prefMask == 0 {
+						continue
+					}
+					if w.firstOcc != 0 {
+						loc.Count("worlds_with_partly_consumed_reservation", 1)
+					}
 				}
 				// reference: CPUs free for this pod
 				var freeForPod uint32
@@ -227,15 +304,18 @@ func TestVerifC06Pick(t *testing.T) {
 						freeForPod |= 1 << uint(id)
 					}
 				}
+				if prefMask&^freeForPod&^w.reserved != 0 {
+					loc.Count("situations_where_a_preferred_cpu_stays_unavailable_after_restore", 1)
+				}
 				for bi, bp := range c06BindPolicies {
 					for _, excl := range c06ExclPolicies {
 						for _, strat := range c06Strategies {
-							if rp != nil && (rp.Pref != (pref == 1) || rp.Excl != string(excl) || rp.Strategy != string(strat) || (rp.Bind != bp.Name && !(rp.Seam == "take" && c06BindPolicies[bi].Policy == bp.Policy))) {
+							if rp != nil && (rp.Excl != string(excl) || rp.Strategy != string(strat) || (rp.Bind != bp.Name && !(rp.Seam == "take" && c06BindPolicies[bi].Policy == bp.Policy))) {
 								continue
 							}
 							mk := func(seam string, result []int) c06PickCase {
 								return c06PickCase{Topology: l.Name, Free: c06MaskList(freeMask), OccMode: c06OccModes[occMode], MaxRef: refMode.MaxRef, Share: refMode.Name,
-									N: n, Bind: bp.Name, Excl: string(excl), Strategy: string(strat), Pref: pref == 1, Seam: seam, Holders: w.holders, Reserved: c06MaskList(w.reserved), Result: result}
+									N: n, Bind: bp.Name, Excl: string(excl), Strategy: string(strat), Pref: c06PrefModes[pref], Seam: seam, Holders: w.holders, Reserved: c06MaskList(w.reserved), Result: result}
 							}
 							judge := func(seam string, set cpuset.CPUSet, reportedSatisfied bool) {
 								loc.Count(seam+"_success", 1)
@@ -250,7 +330,7 @@ func TestVerifC06Pick(t *testing.T) {
 								cnt := bits.OnesCount32(mask)
 								switch {
 								case cnt != n:
-									res.Violate(mc.Violation{Key: "C06|pick|" + seam + "|wrong-count", What: fmt.Sprintf("asked for %d CPUs, success returned %d: %v", n, cnt, c06MaskList(mask)), Replay: mk(seam, c06MaskList(mask))})
+									res.Violate(mc.Violation{Key: "C06|pick|" + seam + "|wrong-count" + socketClass, What: fmt.Sprintf("asked for %d CPUs, success returned %d: %v", n, cnt, c06MaskList(mask)), Replay: mk(seam, c06MaskList(mask))})
 								case mask&w.reserved != 0:
 									res.Violate(mc.Violation{Key: "C06|pick|" + seam + "|reserved-cpu-handed-out", What: fmt.Sprintf("result %v contains reserved CPUs %v", c06MaskList(mask), c06MaskList(mask&w.reserved)), Replay: mk(seam, c06MaskList(mask))})
 								case mask&^freeForPod != 0:
@@ -292,7 +372,7 @@ func TestVerifC06Pick(t *testing.T) {
 								var got cpuset.CPUSet
 								var err error
 								ps := mc.Guard(func() {
-									if pref == 1 {
+									if pref >= 1 {
 										avail, allocated := w.na.getAvailableCPUs(topo, refMode.MaxRef, c06MaskToSet(w.reserved), c06MaskToSet(prefMask))
 										got, err = takePreferredCPUs(topo, refMode.MaxRef, avail, c06MaskToSet(prefMask), allocated, n, bp.Policy, excl, strat)
 									} else {
@@ -361,7 +441,15 @@ func TestVerifC06Pick(t *testing.T) {
 	}
 	res.Bounds = map[string]any{"max_cpus_with_every_free_subset": maxCPUs, "max_cpus_with_full_occupant_and_sharing_product": fullMax,
 		"reduced_product_above_that": "occupants {pods without exclusive policy, mixed}, sharing {limit 1, limit 2 with even-position free CPUs held once}",
-		"topologies":                 names, "ledger_situations_x_n": total}
+		"topologies":                 names, "ledger_situations_x_n": total, "whole_core_free_sets_only": func() []string {
+			var o []string
+			for _, l := range layouts {
+				if coreGranular[l] {
+					o = append(o, l.Name)
+				}
+			}
+			return o
+		}()}
 	env.Emit(res)
 	// the ledger must not have been changed by Allocate (it only computes); covered by part (b) state invariants.
 }
